@@ -103,6 +103,7 @@ const (
 	HookIdentity
 	HookUnwrap // if w, ok := v.Interface().(Wrapper); ok { return reflect.ValueOf(w.W) }
 	HookConst  // return reflect.ValueOf(42)
+	HookSwap   // a hook that transforms SCALARS: an int (kind Int, also behind an interface) 1 becomes 2 and 2 becomes 1, everything else is left alone
 )
 
 type Cfg struct {
@@ -300,6 +301,14 @@ func (r *Ref) walk(parts []string) (*Node, int) {
 			}
 		case HookConst:
 			cur = NInt(KInt, false, 42)
+		case HookSwap:
+			d := cur
+			if d.T.K == KIface && !d.Nil {
+				d = d.Items[0]
+			}
+			if d.T.K == KInt && !d.Nil && (d.I == 1 || d.I == 2) {
+				cur = NInt(KInt, false, 3-d.I)
+			}
 		}
 	}
 	return cur, stOK
